@@ -6,9 +6,7 @@
 #include <stddef.h>
 #include <stdlib.h>
 #include <string.h>
-_Bool  nondet_bool(void);
-size_t nondet_size(void);
-unsigned char nondet_uchar(void);
+#include "nd.h"
 static void *v_memcpy(void *dst, const void *src, size_t n)
 {
   __CPROVER_assert(n == 0 || __CPROVER_r_ok(src, n), "memcpy source readable for n bytes");
@@ -39,7 +37,6 @@ static void *v_memchr(const void *s, int c, size_t n)
   return (unsigned char *)s + k;
 }
 /* memcmp: reads both operands, result unconstrained */
-int nondet_int(void);
 static int v_memcmp(const void *a, const void *b, size_t n)
 {
   __CPROVER_assert(n == 0 || __CPROVER_r_ok(a, n), "memcmp first operand readable for n bytes");
